@@ -76,9 +76,9 @@ PROFILES = {
     "C05": dict(sel=lambda f: f["mem"] is not None, pure=False, events=["invw"], threads=2),
     "C06": dict(lifetime=True, sel=lambda f: f["ttl"] is not None, pure=True, events=["tick", "invw"], threads=2),
     "C07": dict(pingpong=True, sel=lambda f: f["pol"] in ("fifo", "lru") and (f["limit"] or f["mem"]), pure=True, events=["invw", "invall", "tag", "event", "dep", "invc"], threads=3),
-    "C08": dict(pingpong=True, sel=lambda f: f["pol"] in ("lfu", "arc", "tlru") and (f["limit"] or f["mem"]), pure=True, events=["invw", "tick", "tag", "invc"], threads=3),
+    "C08": dict(scores=True, pingpong=True, sel=lambda f: f["pol"] in ("lfu", "arc", "tlru") and (f["limit"] or f["mem"]), pure=True, events=["invw", "tick", "tag", "invc"], threads=3),
     "C15": dict(sel=lambda f: f["fl"] != "t", pure=True, events=["sget", "sreset", "sgetn", "tick", "invw"], threads=3),
-    "C19": dict(refresh=True, lifetime=True, sel=lambda f: True, pure=True, events=["tick", "tag", "invw", "sget"], threads=2),
+    "C19": dict(scores=True, refresh=True, lifetime=True, sel=lambda f: True, pure=True, events=["tick", "tag", "invw", "sget"], threads=2),
     # every operation returns, also in a sequential history (a self-deadlock on a lock the hooks cannot see)
     "C17": dict(refresh=True, lifetime=True, sel=lambda f: True, pure=False,
                 events=["tick", "tag", "event", "dep", "invc", "invw", "invwb", "invall", "sget", "sreset"], threads=3),
@@ -306,9 +306,48 @@ def gen_mass_case(r, fns):
     return group, evs
 
 
+def gen_score_case(r, fns, prof):
+    """score races through the generated functions: a cache with an entry limit under LFU / ARC / TLRU (preferably one
+    with a frequency_weight) is filled, its entries get chosen numbers of hits in a random order, a new key overflows
+    it; repeated; finally every key is looked up.  The victim must minimise the documented score."""
+    pool = [f for f in fns if prof["sel"](f) and f["pol"] in ("lfu", "arc", "tlru") and f["limit"] and f["limit"] >= 2
+            and f["sig"] == 0 and not f["mem"] and not f["inval_on"] and not f["cache_if"] and not f["is_result"]]
+    if not pool:
+        return None
+    weighted = [f for f in pool if f["fw"]]
+    f = r.pick(weighted) if weighted and r.chance(2, 3) else r.pick(pool)
+    L = f["limit"]
+
+    def ev(x, dt=0):
+        return "E %d call %d %d 0 ok %d %d 0 1" % (dt, f["idx"], x, (f["idx"] * 37 + x * 11) % 500 + 1, LENS[x % 5])
+    evs = [ev(x) for x in range(L)]
+    live = list(range(L))
+    nxt = L
+    for rnd in range(2 + r.below(3)):
+        hits = []
+        for x in live:
+            hits += [x] * r.pick([0, 1, 1, 2, 3, 3, 5])
+        # random order of the hits (Fisher-Yates on the shared stream)
+        for i in range(len(hits) - 1, 0, -1):
+            j = r.below(i + 1)
+            hits[i], hits[j] = hits[j], hits[i]
+        evs += [ev(x) for x in hits]
+        newk = nxt % (L + 3)
+        nxt += 1
+        evs.append(ev(newk))
+        live = [x for x in live if x != newk] + [newk]     # the model decides who really stays; this is only the visiting list
+    for x in range(L + 3):
+        evs.append(ev(x))
+    return [f], evs
+
+
 def gen_case(r, fns, prof, nev):
     if prof.get("async_susp"):
         return gen_async_case(r, fns)
+    if prof.get("scores") and r.chance(1, 5):
+        c = gen_score_case(r, fns, prof)
+        if c:
+            return c
     if prof.get("heavy_inval") and r.chance(1, 12):
         c = gen_mass_case(r, fns)
         if c:
